@@ -75,11 +75,12 @@ void StringTokenizer::removeEmptyTokens()
 std::string StringTokenizer::unparseRemainingTokens() const
 {
   string s;
-  for (size_t i = currentPosition_; i + 1 < tokens_.size(); ++i)
+  for (size_t i = currentPosition_; i < tokens_.size(); ++i)
   {
-    s += tokens_[i] + splits_[i];
+    s += tokens_[i];
+    // The separator following the last token (trailing delimiters) is recorded as well:
+    if (i < splits_.size())
+      s += splits_[i];
   }
-  if (numberOfRemainingTokens() > 0)
-    s += tokens_.back();
   return s;
 }
